@@ -276,5 +276,5 @@ def cases(draw, quick=True):
 def run_shard(ctx: core.Ctx) -> core.ShardResult:
     res = core.ShardResult()
     core.run_hypothesis(ctx, res, cases(ctx.tier == 'quick'), check,
-                        ctx.n(12, 100), shrink=False)
+                        ctx.n(12, 100), shrink=False, min_cases=3)
     return res
